@@ -332,7 +332,8 @@ type walkResult struct {
 }
 
 // walker explores the tape tree of one sampling call. branch = number of low-bit patterns per
-// byte (256 = byte-exhaustive, 8 = low three bits with pseudo-random high bits).
+// byte (256 = byte-exhaustive; a smaller power of two 2^k = the low k bits with pseudo-random high bits,
+// valid when every draw of the call has a bound <= 2^k).
 type walker struct {
 	run      *mon.Run
 	call     func(g random.Rand) (string, string) // returns outcome key, violation text
@@ -351,7 +352,7 @@ func (w *walker) hi(depth int, salt uint64) byte {
 	}
 	x := (uint64(depth)+1)*0x9E3779B97F4A7C15 ^ w.hiSeed ^ salt*0xD1B54A32D192ED03
 	x ^= x >> 29
-	return byte(x>>7) &^ 7
+	return byte(x>>7) &^ byte(w.branch-1)
 }
 
 func (w *walker) runOn(prefix []byte) (done bool, outcome, viol string, consumed int) {
@@ -381,7 +382,7 @@ func (w *walker) walk(prefix []byte) {
 			for salt := uint64(1); salt <= 2; salt++ {
 				alt := make([]byte, len(prefix))
 				for i, b := range prefix {
-					alt[i] = b&7 | w.hi(i, salt+uint64(w.res.leaves))
+					alt[i] = b&byte(w.branch-1) | w.hi(i, salt+uint64(w.res.leaves))
 				}
 				d2, o2, _, c2 := w.runOn(alt)
 				if !d2 || o2 != outcome || c2 != consumed {
@@ -575,6 +576,7 @@ func C15(run *mon.Run) {
 		go func(part []uint64) {
 			defer wg.Done()
 			defer func() { <-sem }()
+			defer run.Protect("c15 worker")
 			var e int64
 			for _, n := range part {
 				d2 := 0
@@ -598,6 +600,7 @@ func C15(run *mon.Run) {
 		go func(n uint64) {
 			defer wg.Done()
 			defer func() { <-sem }()
+			defer run.Protect("c15 worker")
 			evals.Add(uintnLongRejections(run, n))
 			run.Shape(fmt.Sprintf("UintN|long-rejections|%d", n))
 		}(n)
@@ -616,6 +619,7 @@ func C15(run *mon.Run) {
 			go func(n uint64) {
 				defer wg.Done()
 				defer func() { <-sem }()
+				defer run.Protect("c15 worker")
 				evals.Add(uintnSampled(run, n, fmt.Sprint(n), run.Pick(2000, 100000)))
 				run.Count("uintn.sampled-n", 1)
 				run.Shape(fmt.Sprintf("UintN|big|%d", bits.Len64(n)))
@@ -652,12 +656,24 @@ func C15(run *mon.Run) {
 			jobs = append(jobs, job{"Samples", n, m, 256, ex}, job{"SubPermutation", n, m, 256, ex})
 		}
 	}
+	// mid-size populations through Samples (m draws, so the tree stays small): n up to 64 (128 in
+	// thorough) with the low log2 bits of each byte enumerated
+	for _, c := range [][3]int{{9, 4, 16}, {12, 3, 16}, {16, 4, 16}, {17, 3, 32}, {31, 2, 32}, {32, 3, 32}, {33, 3, 64}, {48, 3, 64}, {63, 2, 64}, {64, 3, 64}} {
+		if run.Quick() && c[2] == 64 && c[1] == 3 && c[0] != 48 {
+			continue
+		}
+		jobs = append(jobs, job{"Samples", c[0], c[1], c[2], 0})
+	}
+	if !run.Quick() {
+		jobs = append(jobs, job{"Samples", 65, 2, 128, 0}, job{"Samples", 100, 2, 128, 0}, job{"Samples", 128, 2, 128, 0}, job{"Samples", 24, 4, 32, 0}, job{"Samples", 16, 5, 16, 0})
+	}
 	for ji, j := range jobs {
 		wg.Add(1)
 		sem <- struct{}{}
 		go func(ji int, j job) {
 			defer wg.Done()
 			defer func() { <-sem }()
+			defer run.Protect("c15 worker")
 			t := &tape{data: make([]byte, 0, 64)}
 			g := random.NewVerifRand(t)
 			primeStale(g, t)
@@ -678,7 +694,10 @@ func C15(run *mon.Run) {
 				hiSeed: uint64(run.Seed)*1000003 + uint64(ji), verify: run.Pick(16, 4)}
 			w.res.mass = map[int]map[string]*big.Rat{}
 			w.walk(nil)
-			want := fact(j.n) / fact(j.n-j.m)
+			want := 1
+			for i := 0; i < j.m; i++ {
+				want *= j.n - i
+			}
 			rep := map[string]any{"function": j.name, "n": j.n, "m": j.m, "branch": j.branch, "max_depth": w.maxDepth}
 			judgeWalk(run, j.name, j.n, j.m, &w.res, want, rep)
 			evals.Add(w.res.leaves)
@@ -730,10 +749,117 @@ func C15(run *mon.Run) {
 		}
 		run.Eval(1)
 	}
+	if run.ViolationCount() == 0 {
+		c15Volume(run)
+	}
 	run.Exhaustive = false
 	run.Extra["uintn_exhaustive_complete"] = run.Counter("uintn.exhaustive-n") == int64(len(ns))
 	run.Require(run.Counter("uintn.exhaustive-n") == int64(len(ns)), "UintN exhaustive range incomplete")
 	run.Require(run.Counter("walk.jobs") == int64(len(jobs)), "permutation/sample walks incomplete")
+}
+
+// c15Volume: validity of the four helpers over a grid of population and sample sizes far beyond the
+// exhaustive range (sparse m << n, dense m ~ n, sizes around 2^8 and 2^16), driven by ChaCha20, plus a
+// 6-sigma test of the first position's value counts for n <= 64.
+func c15Volume(run *mon.Run) {
+	type cell struct{ n, m, trials int }
+	var cells []cell
+	for _, n := range []int{9, 16, 17, 48, 64, 100, 200, 255, 256, 257, 300, 1000, 4096, 65537} {
+		for _, m := range []int{0, 1, 2, 3, 5, n / 16, n / 3, n - 1, n} {
+			if m < 0 || m > n {
+				continue
+			}
+			tr := run.Pick(600, 6000)
+			if n >= 1000 {
+				tr = run.Pick(20, 200)
+				if m <= 5 {
+					tr = run.Pick(300, 3000)
+				}
+			}
+			cells = append(cells, cell{n, m, tr})
+		}
+	}
+	var wg sync.WaitGroup
+	sem := make(chan struct{}, 16)
+	for ci, c := range cells {
+		wg.Add(1)
+		sem <- struct{}{}
+		go func(ci int, c cell) {
+			defer wg.Done()
+			defer func() { <-sem }()
+			defer run.Protect("c15 volume")
+			r := run.Rand(fmt.Sprintf("volume-%d", ci))
+			g, err := random.NewChacha20PRG(mon.RandBytes(r, 32), nil)
+			if err != nil {
+				return
+			}
+			calls := c15Calls(c.n, c.m)
+			names := []string{"SubPermutation", "Samples"}
+			if c.m == c.n {
+				names = []string{"Permutation", "Shuffle", "SubPermutation", "Samples"}
+			}
+			for _, name := range names {
+				first := make([]int, c.n)
+				for i := 0; i < c.trials; i++ {
+					var viol string
+					var p []int
+					switch name {
+					case "SubPermutation":
+						// (decoded here rather than through the string key: the volume is large)
+						var e error
+						p, e = g.SubPermutation(c.n, c.m)
+						if e != nil || len(p) != c.m {
+							viol = fmt.Sprintf("returned %d elements, error %v", len(p), e)
+						} else {
+							seen := map[int]bool{}
+							for _, x := range p {
+								if x < 0 || x >= c.n || seen[x] {
+									viol = fmt.Sprintf("returned %v: not %d distinct elements of 0..%d", p[:min(len(p), 24)], c.m, c.n-1)
+									break
+								}
+								seen[x] = true
+							}
+						}
+					case "Permutation":
+						var e error
+						p, e = g.Permutation(c.n)
+						if e != nil || !validPerm(p, c.n) {
+							viol = fmt.Sprintf("not a permutation of 0..%d (error %v)", c.n-1, e)
+						}
+					default:
+						var out string
+						out, viol = calls[name](g)
+						if viol == "" && c.m > 0 {
+							var f0 int
+							fmt.Sscanf(out, "[%d", &f0)
+							p = []int{f0}
+						}
+					}
+					if viol != "" {
+						run.Violate(fmt.Sprintf("C15:%s:invalid", name), fmt.Sprintf("%s(n=%d,m=%d) driven by ChaCha20, trial %d: %s", name, c.n, c.m, i, viol), map[string]any{"function": name, "n": c.n, "m": c.m, "trial": i})
+						return
+					}
+					if len(p) > 0 && p[0] >= 0 && p[0] < c.n {
+						first[p[0]]++
+					}
+				}
+				run.Eval(c.trials)
+				run.Count("volume.calls", c.trials)
+				if c.m > 0 && c.n <= 64 && c.trials >= 500 {
+					exp := float64(c.trials) / float64(c.n)
+					lim := 6 * math.Sqrt(exp)
+					for v, cnt := range first {
+						if math.Abs(float64(cnt)-exp) > lim {
+							run.Violate(fmt.Sprintf("C15:%s:first-position-bias", name), fmt.Sprintf("%s(n=%d,m=%d): over %d ChaCha20-driven calls value %d is first %d times (expected %.0f +- %.0f at 6 sigma)", name, c.n, c.m, c.trials, v, cnt, exp, lim), map[string]any{"function": name, "n": c.n, "m": c.m})
+							break
+						}
+					}
+				}
+				run.Shape(fmt.Sprintf("volume|%s|n%d|m%d", name, c.n, c.m))
+			}
+		}(ci, c)
+	}
+	wg.Wait()
 }
 
 func init() { Registry["C15"] = C15 }
